@@ -1741,6 +1741,13 @@ func (sc *serverConn) processHeaders(f *MetaHeadersFrame) error {
 	// point, if it's valid).
 	st := sc.streams[f.Header().StreamID]
 	if st != nil {
+		// RFC 7540 5.1: HEADERS on a stream that is half-closed (remote)
+		// is a stream error of type STREAM_CLOSED. Such a stream may have
+		// no body pipe at all (request HEADERS carried END_STREAM).
+		if st.state != stateOpen {
+			errMsg := "recv HEADERS frame on stream not in 'open' state"
+			return StreamError{id, ErrCodeStreamClosed, errMsg}
+		}
 		return st.processTrailerHeaders(f)
 	}
 
